@@ -274,7 +274,7 @@ func (C05) Run(t *testing.T, sc *core.Scenario, res *core.Result) {
 			// (5) publishTime identifies content
 			if x.hasPub && y.hasPub {
 				if x.pub == y.pub && !same {
-					res.Violate("C05.publish-identifies-content", merge(feat, core.Sig("kind", "same-publish-different-mpd", "what", c05DiffKind(x, y))),
+					res.Violate("C05.publish-identifies-content", merge(feat, core.Sig("kind", "same-publish-different-mpd", "what", c05DiffKind(x, y), "types", x.typ+"-"+y.typ)),
 						"MPDs at %d and %d differ but share publishTime %d", x.t, y.t, x.pub)
 				}
 				if x.pub != y.pub && same {
